@@ -313,7 +313,7 @@ fn jitter_check(run: &mut Run) {
 pub fn run(mut run: Run) -> i32 {
     run.replay_committed(&case);
     run.enumerate("attempt outcomes^3 x {poll interval in force at start}", &[Tape::encode_choice(0, 2)], &[ALPHABET, ALPHABET, ALPHABET, 2], &case);
-    run.random("random histories", &[Tape::encode_choice(1, 2)], run.n(40_000, 1_000_000), 600, &case);
+    run.random("random histories", &[Tape::encode_choice(1, 2)], run.n(120_000, 1_200_000), 600, &case);
     jitter_check(&mut run);
     run.finish(
         RULE,
